@@ -397,9 +397,9 @@ pub fn run(ctx: &Ctx) {
     ctx.set_rule("matrix: signature types {0x00,0x01,0x10-0x13,0x30 over user ids and attributes,0x18,0x28,0x19,0x1F,0x20} x {v4,v6} x hash algorithms x hashed-subpacket sets (empty .. >64 KiB for v6, critical bits, 1/2/5-octet subpacket lengths) x documents / keys of all zoo algorithms / user ids / attributes; sign side: digest handed to a recording signer == reference digest computed from the emitted packet decoded by R-wire; verify side: digest handed to a recording verifier == reference digest; stored left-16 == digest prefix; reference-made Ed25519 signatures (v3, v4, v6; raw ed25519-dalek over the reference digest) verify through Signature::verify and Message::verify; non-trivial = every cell; distinct = (type, version, hash, keys, subpacket shape)");
     ctx.assume("key bodies are taken from rPGP's serializer (faithfulness is C05); cross-version certifications (v4 key certifying v6 key) are not asserted because the RFC wording on framing is ambiguous there");
     zoo::warm(zoo::ALL);
-    let n = ctx.tier.pick(6000u64, 150_000);
+    let n = ctx.tier.pick(6000u64, 4_500_000);
     ctx.group("digest-matrix", Source::Random { n, tape_len: 300 }, |t, rec| matrix_case(t, rec, zoo::ALL_SIGNERS));
-    let n = ctx.tier.pick(3000u64, 60_000);
+    let n = ctx.tier.pick(3000u64, 1_800_000);
     ctx.group("reference-made-signatures", Source::Random { n, tape_len: 200 }, reference_made_case);
     let _ = (HashAlgorithm::Sha256, KeyVersion::V4);
     fn _unused(_: &dyn SigningKey) {}
